@@ -271,7 +271,7 @@ def regen(ctx):
 
 # =============================================================================== cases
 def generate(ctx):
-    n = ctx.n(3, 40)
+    n = ctx.n(3, 100)
     return [c12.gen_module(ctx.rng, i, (8, 3, 8, 4, 5, 2), for_verify=True, prefix="_c33_") for i in range(n)]
 
 
